@@ -231,11 +231,7 @@ func (g *Gen) unop(in *ssa.UnOp, st *State, reach string) {
 		g.define(in, not(x.S))
 	case token.SUB:
 		if isFloat(in.Type()) {
-			if g.fmode == "real" {
-				g.define(in, "(- "+x.S+")")
-			} else {
-				g.define(in, "(fp.neg "+x.S+")")
-			}
+			g.define(in, g.fneg(x.S, in.Type()))
 			return
 		}
 		g.define(in, g.wrap("(- "+x.S+")", in.Type(), false))
@@ -290,8 +286,8 @@ func (g *Gen) binop(in *ssa.BinOp, st *State, reach string) {
 		var s string
 		switch u := xt.Underlying().(type) {
 		case *types.Basic:
-			if u.Info()&types.IsFloat != 0 && g.fmode == "fp" {
-				s = "(fp.eq " + x.S + " " + y.S + ")"
+			if u.Info()&types.IsFloat != 0 {
+				s = g.fcmp("==", x.S, y.S, xt)
 			} else {
 				s = "(= " + x.S + " " + y.S + ")"
 			}
@@ -322,9 +318,8 @@ func (g *Gen) binop(in *ssa.BinOp, st *State, reach string) {
 	case token.LSS, token.LEQ, token.GTR, token.GEQ:
 		op := map[token.Token]string{token.LSS: "<", token.LEQ: "<=", token.GTR: ">", token.GEQ: ">="}[in.Op]
 		switch {
-		case isFloat(xt) && g.fmode == "fp":
-			fop := map[string]string{"<": "fp.lt", "<=": "fp.leq", ">": "fp.gt", ">=": "fp.geq"}[op]
-			g.define(in, "("+fop+" "+x.S+" "+y.S+")")
+		case isFloat(xt):
+			g.define(in, g.fcmp(op, x.S, y.S, xt))
 		case isString(xt):
 			g.uses["str"] = true
 			switch op {
@@ -352,22 +347,11 @@ func (g *Gen) binop(in *ssa.BinOp, st *State, reach string) {
 		return
 	}
 	if isFloat(t) {
-		if g.fmode == "fp" {
-			op := map[token.Token]string{token.ADD: "fp.add RNE", token.SUB: "fp.sub RNE", token.MUL: "fp.mul RNE", token.QUO: "fp.div RNE"}[in.Op]
-			if op == "" {
-				g.fail(in.Pos(), "float op %s", in.Op)
-			}
-			g.define(in, "("+op+" "+x.S+" "+y.S+")")
-		} else {
-			op := map[token.Token]string{token.ADD: "+", token.SUB: "-", token.MUL: "*", token.QUO: "/"}[in.Op]
-			if op == "" {
-				g.fail(in.Pos(), "float op %s", in.Op)
-			}
-			if in.Op == token.MUL || in.Op == token.QUO {
-				g.uses["nia"] = true
-			}
-			g.define(in, "("+op+" "+x.S+" "+y.S+")")
+		op := map[token.Token]string{token.ADD: "+", token.SUB: "-", token.MUL: "*", token.QUO: "/"}[in.Op]
+		if op == "" {
+			g.fail(in.Pos(), "float op %s", in.Op)
 		}
+		g.define(in, g.fbin(op, x.S, y.S, t))
 		return
 	}
 	if !isInteger(t) {
@@ -651,6 +635,15 @@ func (c *Ctx) convertSV(v *SV, to types.Type) *SV {
 		}
 	}
 	switch {
+	case isInteger(from) && isFloat(to) && c.fmode == "uf":
+		return c.ufCall("i2f"+c.fw(to), []*SV{v}, to)
+	case isFloat(from) && isFloat(to) && c.fmode == "uf":
+		if intBits32(from) == intBits32(to) {
+			return &SV{S: v.S, T: to}
+		}
+		return c.ufCall("f"+c.fw(from)+"to"+c.fw(to), []*SV{v}, to)
+	case isFloat(from) && isInteger(to) && c.fmode == "uf":
+		return c.ufCall("f"+c.fw(from)+"toi."+sanitize(to.String()), []*SV{v}, to)
 	case isInteger(from) && isFloat(to):
 		if c.fmode == "real" {
 			return &SV{S: "(to_real " + v.S + ")", T: to}
@@ -715,6 +708,9 @@ func (g *Gen) convertSVg(x *SV, from, to types.Type, pos token.Pos, reach string
 		// Go: out-of-range float->int conversion is implementation-defined; require in range
 		lo, hi := intRange(to)
 		var inr string
+		if g.fmode == "uf" {
+			return g.convertSV(&SV{S: x.S, T: from}, to)
+		}
 		if g.fmode == "real" {
 			inr = fmt.Sprintf("(and (> %s %s.0) (< %s %s.0))", x.S, smtRealInt(new(big.Int).Sub(lo, big.NewInt(1))), x.S, smtRealInt(new(big.Int).Add(hi, big.NewInt(1))))
 		} else {
